@@ -191,6 +191,8 @@ class Sym:
             raise TranslateError('unsupported literal')
         if isinstance(e, ast.Name):
             if e.id in env:
+                if env[e.id].kind == 'poison':
+                    raise TranslateError('`%s` is used, whose value is outside the fragment (%s)' % (e.id, env[e.id].msg))
                 return env[e.id]
             return self.module_constant(e.id)
         if isinstance(e, ast.UnaryOp) and isinstance(e.op, ast.USub):
